@@ -373,6 +373,50 @@ type slicer struct {
 	callees  map[*ssa.Function]ssa.CallInstruction // every callee met in the slice (with one site)
 	gens     map[*ssa.Function]bool                // walked callees: the slice stops there
 	inlineIn map[*ssa.Function]bool                // functions in which the slice ran
+	// use: the instruction of the current function at which the value under consideration is consumed
+	// on its way to the sink (the sink store itself, or the call that passes it on). A call that merely
+	// receives a local object *after* that point cannot have filled it.
+	use ssa.Instruction
+}
+
+// mayPrecede: instruction a can execute before instruction b (same function): same block and earlier,
+// or b's block is reachable from a's block in the control-flow graph.
+func mayPrecede(a, b ssa.Instruction) bool {
+	if a == nil || b == nil || a.Parent() != b.Parent() {
+		return true
+	}
+	ba, bb := a.Block(), b.Block()
+	idx := func(i ssa.Instruction) int {
+		for n, x := range i.Block().Instrs {
+			if x == i {
+				return n
+			}
+		}
+		return -1
+	}
+	seen := map[*ssa.BasicBlock]bool{}
+	var reach func(x *ssa.BasicBlock) bool
+	reach = func(x *ssa.BasicBlock) bool {
+		for _, sc := range x.Succs {
+			if sc == bb {
+				return true
+			}
+			if !seen[sc] {
+				seen[sc] = true
+				if reach(sc) {
+					return true
+				}
+			}
+		}
+		return false
+	}
+	if ba == bb {
+		if idx(a) < idx(b) {
+			return true
+		}
+		return reach(ba) // around a loop
+	}
+	return reach(ba)
 }
 
 func (s *slicer) call(c ssa.CallInstruction, viaResult bool) {
@@ -429,8 +473,11 @@ func (s *slicer) object(v ssa.Value) {
 				s.val(ins)
 			}
 		case ssa.CallInstruction:
-			// passed to a call: the callee may fill it
+			// passed to a call: the callee may fill it — if it runs before the value is consumed
 			if vv, ok := ins.(ssa.Value); ok && vv == v {
+				continue
+			}
+			if ins == s.use || !mayPrecede(ins, s.use) {
 				continue
 			}
 			s.call(ins, false)
@@ -519,12 +566,13 @@ func (s *slicer) param(p *ssa.Parameter) {
 		} else {
 			args = cc.Args
 		}
-		if _, isGo := e.Site.(*ssa.Go); isGo || len(args) != len(fn.Params) {
-			if len(args) != len(fn.Params) {
-				continue
-			}
+		if len(args) != len(fn.Params) {
+			continue
 		}
+		saved := s.use
+		s.use = e.Site
 		s.val(args[idx])
+		s.use = saved
 	}
 }
 
@@ -706,7 +754,7 @@ func main() {
 				}
 				ss.sites[fn.String()] = true
 				sl := &slicer{x: x, reach: reach, seen: map[ssa.Value]bool{}, seenPar: map[*ssa.Parameter]bool{},
-					callees: ss.callees, gens: ss.gens, inlineIn: map[*ssa.Function]bool{}}
+					callees: ss.callees, gens: ss.gens, inlineIn: map[*ssa.Function]bool{}, use: st}
 				sl.val(st.Val)
 			}
 		}
@@ -1001,30 +1049,29 @@ func main() {
 	w("import Mtv.Rand.Graph\nnamespace Mtv.Gen.CallGraph\nopen Mtv.Rand\n\n")
 	w("/-- the translator ran to completion on a tree that type-checks -/\ndef ok : Bool := true\n\n")
 	w("def numNodes : Nat := %d\n\n", N)
-	// adjacency in chunks (keeps each literal small for the elaborator)
+	// adjacency rows in chunks of k ≈ √N rows (node x = row x % k of chunk x / k): a lookup in the kernel
+	// then costs about 2√N list steps instead of N
+	k := 1
+	for k*k < N {
+		k++
+	}
+	w("/-- rows per chunk -/\ndef chunk : Nat := %d\n\n", k)
+	w("/-- out-edges of node `x`: row `x %% chunk` of chunk `x / chunk` -/\ndef adj : List Graph := [\n")
+	for lo := 0; lo < N; lo += k {
+		hi := min(lo+k, N)
+		w("  [ -- nodes %d .. %d\n", lo, hi-1)
+		for n := lo; n < hi; n++ {
+			w("    %s%s\n", natList(adj[n]), sep(n, hi))
+		}
+		if hi < N {
+			w("  ],\n")
+		} else {
+			w("  ]\n")
+		}
+	}
+	w("]\n\n")
 	const chunk = 5000
 	nch := 0
-	for lo := 0; lo < N; lo += chunk {
-		hi := min(lo+chunk, N)
-		w("def adj%d : List (List Nat) := [\n", nch)
-		for n := lo; n < hi; n++ {
-			w("  %s%s\n", natList(adj[n]), sep(n, hi))
-		}
-		w("]\n\n")
-		nch++
-	}
-	w("/-- out-edges of node `i` at position `i` -/\ndef adj : List (List Nat) := ")
-	for i := 0; i < nch; i++ {
-		if i > 0 {
-			w(" ++ ")
-		}
-		w("adj%d", i)
-	}
-	if nch == 0 {
-		w("[]")
-	}
-	w("\n\n")
-	nch = 0
 	for lo := 0; lo < N; lo += chunk {
 		hi := min(lo+chunk, N)
 		w("def names%d : List String := [\n", nch)
@@ -1079,7 +1126,7 @@ func main() {
 	}
 	w("]\n")
 	w("/-- a path from an entry point to a seeder (empty if there is none) -/\ndef seedPath : List Nat := %s\n\n", natList(seedPath))
-	w("def model : Model := {\n  adj := adj, numNodes := numNodes, leaves := leaves, cryptoRand := cryptoRand, mathRand := mathRand,\n")
+	w("def model : Model := {\n  adj := adj, chunk := chunk, numNodes := numNodes, leaves := leaves, cryptoRand := cryptoRand, mathRand := mathRand,\n")
 	w("  seeders := seeders, clock := clock, suspect := suspect, readerStores := readerStores, entries := entries,\n")
 	w("  generators := generators, secrets := secrets, witnessPaths := witnessPaths, seedPath := seedPath, ok := ok }\n\n")
 	w("end Mtv.Gen.CallGraph\n")
@@ -1116,7 +1163,7 @@ func failStub(msg string) []byte {
 	fmt.Fprintf(&b, "/- GENERATED by c19graph: the extraction FAILED (%s).\n   The model below makes every C19 graph theorem fail. -/\n", strings.ReplaceAll(msg, "-/", "- /"))
 	b.WriteString("import Mtv.Rand.Graph\nnamespace Mtv.Gen.CallGraph\nopen Mtv.Rand\n")
 	b.WriteString("def names : List String := []\n")
-	b.WriteString("def model : Model := {\n  adj := [], numNodes := 0, leaves := [], cryptoRand := [], mathRand := [], seeders := [], clock := [],\n")
+	b.WriteString("def model : Model := {\n  adj := [], chunk := 1, numNodes := 0, leaves := [], cryptoRand := [], mathRand := [], seeders := [], clock := [],\n")
 	b.WriteString("  suspect := [], readerStores := [], entries := [], generators := [], secrets := [], witnessPaths := [], seedPath := [], ok := false }\n")
 	b.WriteString("end Mtv.Gen.CallGraph\n")
 	return b.Bytes()
